@@ -20,7 +20,8 @@ Num32(b4) == IF b4[4] < 128 THEN b4[1] + 256 * b4[2] + 65536 * b4[3] + 16777216 
 CfgOf(c) == [api |-> c.api, mask |-> c.mask, nla |-> c.nla, check |-> c.check, admin |-> c.admin, auto |-> c.auto,
              blank |-> c.blank, hash |-> c.hash, w |-> c.w, h |-> c.h,
              domain |-> Utf16LE(c.domain), user |-> Utf16LE(c.user), password |-> Utf16LE(c.password),
-             domainCps |-> c.domain, userCps |-> c.user, passwordCps |-> c.password]
+             domainCps |-> c.domain, userCps |-> c.user, passwordCps |-> c.password,
+             layout |-> c.layout, nameCps |-> c.name]
 
 Trusted(ident) == ident \in {"leaf", "leaf2"}
 
@@ -55,7 +56,9 @@ TCWrite ==
 ResponseConforms(d) == /\ d.result = 0 /\ d.ioChannel = 1003 /\ d.nchannels = 0
                        /\ \E k \in 1..Len(d.blocks) : d.blocks[k] = 3073
                        /\ \E k \in 1..Len(d.blocks) : d.blocks[k] = 3075
-LicenceGood(d) == /\ d.pflags = 3
+\* preamble flags (MS-RDPBCGR 2.2.1.12.1.1): low nibble = preamble version 2 (RDP 4.0) or 3 (RDP 5.0 and later),
+\* 0x80 = EXTENDED_ERROR_MSG_SUPPORTED; a conforming server may send any of the four combinations
+LicenceGood(d) == /\ d.pflags \in {2, 3, 130, 131}
                   /\ \/ d.msg = "NewLicense"
                      \/ d.msg = "ErrorAlert" /\ d.code = <<7, 0, 0, 0>> /\ d.transition = <<2, 0, 0, 0>>
 
@@ -156,10 +159,32 @@ EventClean ==
 TCDer3Clean == IsEvent("c_der") => LET d == Dec[Rec[l].blob] IN
    (d.ok /\ d.round = 3) => LET c == NW!DecTsCredentials(Unwrap(nla.c2s, d.authInfo).plain) IN ~HasSecret(c.domain) /\ ~HasSecret(c.user)
 
+(***************************************************************************)
+(* Beyond the listed properties: the configuration the application gave is *)
+(* what the client asks the server for - desktop size and keyboard layout  *)
+(* in the client core data AND in the capability sets of every confirm     *)
+(* active, the client name (first 15 UTF-16 units) in the core data.       *)
+(* Evaluated as an extra conjunct of the trace relation (TSpecCfgEcho); a  *)
+(* mismatch is reported as a note, not as a violation of a listed property.*)
+(***************************************************************************)
+LayoutCode(name) == CASE name = "fr" -> <<12, 4, 0, 0>> [] name = "de" -> <<7, 4, 0, 0>> [] OTHER -> <<9, 4, 0, 0>>
+Name15(cps) == LET u == Utf16LE(cps) IN IF Len(u) > 30 THEN SubSeq(u, 1, 30) ELSE u
+CoreEchoes(d) == /\ d.core.width = cfg.w /\ d.core.height = cfg.h
+                 /\ d.core.kbdLayout = LayoutCode(cfg.layout)
+                 /\ d.core.clientName = Name15(cfg.nameCps)
+ConfirmEchoes(d) == /\ d.capDetail.bitmap # <<>> /\ d.capDetail.bitmap.w = cfg.w /\ d.capDetail.bitmap.h = cfg.h
+                    /\ d.capDetail.input # <<>> /\ d.capDetail.input.layout = LayoutCode(cfg.layout)
+CfgEchoOk ==
+  LET e == Rec[l] IN
+  /\ (e.ev = "c_write" /\ Dec[e.blob].ok /\ Dec[e.blob].kind = "ConnectInitial") => CoreEchoes(Dec[e.blob])
+  /\ (e.ev = "srv") => \A k \in 1..Len(e.w) : (Dec[e.w[k]].ok /\ Dec[e.w[k]].kind = "ConfirmActive") => ConfirmEchoes(Dec[e.w[k]])
+
 TNext == \/ TReset \/ TCDer \/ TSDer \/ TNote \/ TTls \/ TRest
          \/ ((TCWrite \/ TSWrite \/ THello \/ TClose \/ TRet \/ TSrvS \/ TInputS \/ TShutdownS) /\ UNCHANGED nla)
 TSpec == TInit /\ [][TNext]_tvars
 \* the same, additionally refusing any event whose bytes leak the password
 TSecretNext == TNext /\ (l <= Len(Rec) => EventClean)
+TCfgEchoNext == TNext /\ (l <= Len(Rec) => CfgEchoOk)
+TSpecCfgEcho == TInit /\ [][TCfgEchoNext]_tvars
 TSpecSecrets == TInit /\ [][TSecretNext]_tvars
 =============================================================================
